@@ -80,8 +80,14 @@ CHECKS = {
    text="TLC enumerates client TLS configurations x sni/alpn matcher configurations (L4TLS); for each a real crypto/tls client produces the ClientHello, the bytes are shown to the real matcher (provisioned from JSON), to the matcher's own parser (in-package accessor) and to a crypto/tls server (GetConfigForClient); TLC judges: server name, ALPN, supported versions, cipher suites, curves equal the server's view (T1-T5), the verdict equals the decision function applied to the server's view (T6), the placeholders equal the hello (T7). Record framing (non-handshake records never match, every proper prefix of a hello stays undecided) is judged on the tls vectors of L4Wire at every prefix.",
    note="field-extraction ground truth is crypto/tls; no byte-level mutations beyond truncation and foreign record types",
    technique="TLA+ case space and sni/alpn decision function; TLC-enumerated cases run through a real TLS client, the real matcher and a real TLS server; trace validation"),
+
+ "C15": dict(level="exploration", design="5 C15, 4.9",
+   text="Configuration terms of a bounded grammar (L4Config: matchers with options, matcher sets, routes, handler chains incl. proxy options, socks5, nested subroute and tee, 1-2 servers, global-option and listener-wrapper forms, option-order / number-of-blocks printing choices) are enumerated exhaustively by TLC; each term IS the expected JSON; the harness prints it as a Caddyfile following the documented syntax, runs the real adapter twice, compares the adapted JSON with the term, loads it with caddy.Validate (full provisioning) and round-trips the layer4 JSON through the Go structs; TLC judges the five outcomes (F1-F5).",
+   note="TLC is a bounded-exhaustive term generator here, the oracle is term = adapted JSON plus a harness-owned Caddyfile printer; undocumented Caddyfile forms are left out",
+   technique="TLA+ configuration-term grammar enumerated by TLC; adapter / loader / round-trip run on every term; trace validation"),
 }
 NA = {
+ "C18": "codec inverse laws (parse o serialise = id over all byte strings and field values) are encode/decode fidelity of pure functions: a TLA+ model would only restate each codec and the conformance step would be byte equality with no state, schedule or history involved; the technique family does not apply (DESIGN.md section 6)",
 }
 ALL = ["C%02d" % i for i in range(1, 19)]
 
